@@ -301,7 +301,7 @@ pub fn make_case(env: &CliEnv, c: &CaseIn, idx: usize) -> Case {
 
 const STR_LITS: &[&str] = &["\"root\"", "\"x\\\"q\\\\\"", "\"日本\"", "\"\"", "\"a b\"", "\"module\""];
 const GLOBAL_NAMES: &[(&str, &str)] = &[("pkg", "ver"), ("g_a", "g_b"), ("root_path", "mode")];
-const VALUES: &[&str] = &["1", "", "p", "a=b", "==", "x y", "é日本", "{\"k\": 1}", "v-1", "\\n"];
+const VALUES: &[&str] = &["1", "", "p", "a=b", "==", "x y", "é日本", "{\"k\": 1}", "v-1", "\\n", " ", " lead", "trail ", "\t", " = "];
 const EXTRA_NAMES: &[&str] = &["extra", "", "x", "unused_1", "é"];
 
 pub const SOURCES_OK: &[&str] = &[
@@ -412,6 +412,8 @@ fn gen_globals(rng: &mut Rng, prog: &Prog, tags: &mut Vec<String>) -> Vec<String
         if g.iter().any(|x| x.split_once('=').map(|p| p.0) == Some(*name)) { break; }
         g.push(format!("{}={}", name, rng.pick(VALUES)));
     }
+    // a name with surrounding blanks is a DIFFERENT name (the value and the name are taken verbatim)
+    if !g.is_empty() && rng.chance(8) { let k = rng.below(g.len()); g[k] = if rng.chance(50) { format!(" {}", g[k]) } else { g[k].replacen('=', " =", 1) }; tags.push("globals:padded-name".into()); }
     if mode < 72 {
         tags.push("globals:well-formed".into());
     } else if mode < 82 {
